@@ -36,17 +36,18 @@ DICT_T = pa.dictionary(pa.int8(), pa.utf8())
 DICT_OUT = pa.schema([pa.field("v", DICT_T)])
 DICT_IN = pa.schema([pa.field("a", DICT_T)])
 ZERO = pa.schema([])
+NEST_OUT = pa.schema([pa.field("v", pa.list_(DICT_T))])
 NDICT = 40
 TB = 2048                                   # threshold of the boundary world
-THR = {"t0": 0, "t1": 1, "t1f": 1, "t1x": 1, "tb": TB}
+THR = {"t0": 0, "t1": 1, "t1f": 1, "t1x": 1, "t1c": 1, "tb": TB}
 
 # payload class -> concrete shape.  Sizes are exact per class (the model needs the allocator's charge), content is seeded.
-ROWS = {"o_s": 1, "o_b": TB // 8 - 1, "o_e": TB // 8, "o_m": 600, "o_0": 0, "o_L": 40000, "o_d": 2500, "o_z": 5,
+ROWS = {"o_s": 1, "o_b": TB // 8 - 1, "o_e": TB // 8, "o_m": 600, "o_0": 0, "o_L": 40000, "o_d": 2500, "o_z": 5, "o_n": 400,
         "i_s": 1, "i_m": 600, "i_L": 40000, "i_w": 600, "i_d": 2300}
 RLEN = {"r_s": 12, "r_b": TB - 1 - 4, "r_e": TB - 4, "r_m": 6000, "r_L": 300000}
 PADLEN = {"-": 0, "q_s": 10, "q_m": 3000}
 REQ_C, RES_C = ["q_s", "q_m"], ["r_s", "r_b", "r_e", "r_m", "r_L", "r_d", "r_v"]
-OUT_P, OUT_D, OUT_Z = ["o_s", "o_b", "o_e", "o_m", "o_0", "o_L"], ["o_d"], ["o_z"]
+OUT_P, OUT_D, OUT_Z = ["o_s", "o_b", "o_e", "o_m", "o_0", "o_L"], ["o_d"], ["o_z", "o_n"]   # OUT_Z: producer-only families
 IN_P, IN_D, WRONG_C = ["i_s", "i_m", "i_L"], ["i_d"], "i_w"
 ALL_CLASSES = REQ_C + RES_C + OUT_P + OUT_D + OUT_Z + IN_P + IN_D + [WRONG_C]
 
@@ -75,6 +76,8 @@ def _insum(inp: AnnotatedBatch | None) -> int:
 def _emit(kind: str, rows: int, tag: int, k: int, inp, out: OutputCollector) -> None:
     s = _insum(inp)
     md = {"seq": f"{tag}/{k}", "insum": str(s)}          # application metadata travels with the batch
+    if inp is not None and inp.custom_metadata is not None and inp.custom_metadata.get(b"note") is not None:
+        md["note"] = inp.custom_metadata.get(b"note").decode()      # ... in both directions
     if kind == "plain" and inp is not None and inp.batch.num_rows == rows and rows > 1:
         # pass-through service: the output batch shares the input batch's buffers (zero-copy when the input came
         # through shm), so the input region must stay untouched until the output has been written
@@ -84,6 +87,9 @@ def _emit(kind: str, rows: int, tag: int, k: int, inp, out: OutputCollector) -> 
         out.emit_arrays([pa.array([base + i for i in range(rows)], type=pa.int64())], metadata=md)
     elif kind == "dict":
         out.emit_arrays([_dict_array(rows, tag, k + s)], metadata=md)
+    elif kind == "nest":
+        flat = _dict_array(rows * 3, tag, k + s)
+        out.emit_arrays([pa.ListArray.from_arrays(pa.array(range(0, rows * 3 + 1, 3), type=pa.int32()), flat)], metadata=md)
     else:
         out.emit(pa.RecordBatch.from_struct_array(pa.array([{}] * rows, pa.struct([]))), metadata=md)
 
@@ -134,6 +140,7 @@ class ShmSvc(Protocol):
     def p(self, tag: int, rows: int, nout: int, fin: str) -> Stream[ProducerState]: ...
     def pd(self, tag: int, rows: int, nout: int, fin: str) -> Stream[ProducerState]: ...
     def pz(self, tag: int, rows: int, nout: int, fin: str) -> Stream[ProducerState]: ...
+    def pn(self, tag: int, rows: int, nout: int, fin: str) -> Stream[ProducerState]: ...
     def x(self, tag: int, rows: int, nout: int, fin: str) -> Stream[ExchangeState]: ...
     def xd(self, tag: int, rows: int, nout: int, fin: str) -> Stream[ExchangeState]: ...
 
@@ -173,6 +180,9 @@ class Impl:
 
     def pz(self, tag: int, rows: int, nout: int, fin: str) -> Stream[ProducerState]:
         return self._s(PState, "zero", tag, rows, nout, fin, ZERO)
+
+    def pn(self, tag: int, rows: int, nout: int, fin: str) -> Stream[ProducerState]:
+        return self._s(PState, "nest", tag, rows, nout, fin, NEST_OUT)
 
     def x(self, tag: int, rows: int, nout: int, fin: str) -> Stream[ExchangeState]:
         return self._s(XState, "plain", tag, rows, nout, fin, PLAIN_OUT, PLAIN_IN)
@@ -272,26 +282,38 @@ def region_offset(ab: AnnotatedBatch) -> int | None:
 # ------------------------------------------------------------------------------------------------ concretisation
 def in_batch(cls: str, rng: random.Random, tag: int) -> AnnotatedBatch:
     rows = ROWS[cls]
+    note = pa.KeyValueMetadata({b"note": f"{tag}-{rng.randrange(1000)}".encode()})
     if cls == "i_d":
-        return AnnotatedBatch(batch=pa.RecordBatch.from_arrays([_dict_array(rows, tag, rng.randrange(NDICT))], schema=DICT_IN))
+        return AnnotatedBatch(batch=pa.RecordBatch.from_arrays([_dict_array(rows, tag, rng.randrange(NDICT))], schema=DICT_IN),
+                              custom_metadata=note)
     vals = [rng.randrange(1 << 40) for _ in range(rows)]
     return AnnotatedBatch(batch=pa.RecordBatch.from_arrays([pa.array(vals, type=pa.int64())],
-                                                           schema=WRONG_IN if cls == "i_w" else PLAIN_IN))
+                                                           schema=WRONG_IN if cls == "i_w" else PLAIN_IN),
+                          custom_metadata=note)
 
 
 def stream_method(k: str, co: str) -> str:
     if k == "p":
-        return "pd" if co in OUT_D else "pz" if co in OUT_Z else "p"
+        return "pd" if co in OUT_D else "pn" if co == "o_n" else "pz" if co in OUT_Z else "p"
     return "xd" if co in OUT_D else "x"
 
 
 class World:
-    """One connection: client transport + server thread (+ segment).  mode: 'static' | 'dynamic' | 'pipe'."""
+    """One connection: client transport + server thread (+ segment).
+    mode: 'static' (ShmPipeTransport both sides) | 'cached' (plain-pipe server, RpcServer.serve attaches and caches the
+    segment the client names) | 'percall' (plain-pipe server whose owner loops over serve_one: attach per call) | 'pipe'.
+    loop: how the server side is driven when there is no segment at all ('serve' | 'serve_one')."""
 
-    def __init__(self, cap: int | None, mode: str, seg_cls=ShmSegment) -> None:
+    def __init__(self, cap: int | None, mode: str, seg_cls=ShmSegment, loop: str = "serve") -> None:
         self.mode = mode
+        self.cap = cap
         self.seg = self.srv_seg = None
         cp, sp = make_pipe_pair()
+        self.cp = cp
+        if mode == "dynamic":
+            mode = self.mode = "cached"
+        if mode == "percall":
+            loop = "serve_one"
         if mode == "pipe":
             self.ct, self.st = cp, sp
         else:
@@ -308,12 +330,30 @@ class World:
 
         def serve():
             try:
-                self.server.serve(self.st)
+                if loop == "serve":
+                    self.server.serve(self.st)
+                else:
+                    # an owner driving serve_one() itself (documented entry point): no per-connection caches
+                    while True:
+                        try:
+                            self.server.serve_one(self.st)
+                        except (EOFError, StopIteration, pa.ArrowInvalid, BrokenPipeError, ConnectionResetError):
+                            break
             except BaseException as e:  # noqa: BLE001
                 self.died.append(repr(e))
 
         self.th = threading.Thread(target=serve, daemon=True)
         self.th.start()
+
+    def new_segment(self):
+        """The connection is handed to its next user, who brings a fresh segment (what WorkerPool does per borrow):
+        the old one is destroyed, the client side goes on over the same pipe."""
+        old = self.seg
+        self.seg = type(old).create(HEADER_SIZE + self.cap)
+        _SEGMENTS[self.seg.name] = self.seg
+        self.ct = ShmPipeTransport(self.cp, self.seg)
+        _drop(old)
+        return self.ct
 
     def close(self) -> dict:
         try:
@@ -337,7 +377,7 @@ class World:
         return {"server_died": self.died, "server_stuck": stuck}
 
 
-def _unary_via_shm_request(w: World, px, name: str, kwargs: dict, on_log):
+def _unary_via_shm_request(w: World, px, name: str, kwargs: dict, on_log, wire_name: str | None = None, via: bool = True):
     """A client that routes the request batch through the segment (as the C++ client does): the request is written
     with the real maybe_write_to_shm, the response is read with the real _read_unary_response."""
     from vgi_rpc.rpc._wire import _read_unary_response
@@ -346,22 +386,22 @@ def _unary_via_shm_request(w: World, px, name: str, kwargs: dict, on_log):
     info = rpc_methods(ShmSvc)[name]
     arrays = [pa.array([kwargs[f.name]], type=f.type) for f in info.params_schema]
     batch = pa.RecordBatch.from_arrays(arrays, schema=info.params_schema)
-    md = {b"vgi_rpc.method": name.encode(), b"vgi_rpc.request_version": b"1"}
+    md = {b"vgi_rpc.method": (wire_name or name).encode(), b"vgi_rpc.request_version": b"1"}
     if w.seg is not None:
         md[b"vgi_rpc.shm_segment_name"] = w.seg.name.encode()
         md[b"vgi_rpc.shm_segment_size"] = str(w.seg.size).encode()
-    pb, pcm = S.maybe_write_to_shm(batch, pa.KeyValueMetadata(md), w.seg)
+    pb, pcm = S.maybe_write_to_shm(batch, pa.KeyValueMetadata(md), w.seg if via else None)
     with ipc.new_stream(w.ct.writer, pb.schema) as wr:
         wr.write_batch(pb, custom_metadata=pcm)
     reader = ValidatedReader(ipc.open_stream(w.ct.reader), IpcValidation.FULL)
     return _read_unary_response(reader, info, on_log, None, shm=w.seg)
 
 
-def run_history(script: list[dict], cap: int, world: str, mode: str, seed: int, tag0: int) -> dict:
+def run_history(script: list[dict], cap: int, world: str, mode: str, seed: int, tag0: int, loop: str = "serve") -> dict:
     """Execute one client script.  Returns the observable record (see module docstring)."""
     rng = random.Random(seed)
     set_threshold(THR[world])
-    w = World(cap, mode)
+    w = World(cap, mode, loop=loop)
     seg = w.seg
     obs: list[str] = []          # delivered history as digest tokens (compared with the inline run by TLC)
     ev: list[dict] = []          # events for ShmXferTrace
@@ -404,10 +444,17 @@ def run_history(script: list[dict], cap: int, world: str, mode: str, seed: int, 
     mine: list[int] = []
     ended = True
     try:
-        with RpcConnection(ShmSvc, w.ct, on_log=on_log) as px:
+        px = RpcConnection(ShmSvc, w.ct, on_log=on_log).__enter__()      # the transport is closed by World.close()
+        if True:
             for op in script:
                 o = op["op"]
-                if o == "Unary":
+                if o == "NewSegment":
+                    if seg is not None and w.mode in ("cached", "percall"):
+                        px = RpcConnection(ShmSvc, w.new_segment(), on_log=on_log).__enter__()
+                        seg = w.seg
+                    ev.append({"e": "NewSegment", "tab": tab()})
+                    boundary({"k": "newseg", "fail": "-"})
+                elif o == "Unary":
                     callno += 1
                     tag = tag0 + callno
                     state.update(boom=(op["out"] == "cb"), nlog=0)
@@ -415,11 +462,13 @@ def run_history(script: list[dict], cap: int, world: str, mode: str, seed: int, 
                     pad = bytes(rng.randrange(256) for _ in range(PADLEN[rq]))
                     via = False
                     try:
-                        kw = {"tag": tag, "mode": {"ok": "ok", "err": "err", "cb": "log"}[op["out"]], "pad": pad}
+                        kw = {"tag": tag, "mode": {"ok": "ok", "err": "err", "cb": "log", "unk": "ok"}[op["out"]], "pad": pad}
                         name = "ue" if res == "r_d" else "uv" if res == "r_v" else "u"
                         if name == "u":
                             kw["n"] = RLEN[res]
-                        if rq != "-":
+                        if op["out"] == "unk":
+                            r = _unary_via_shm_request(w, px, name, kw, on_log, wire_name="zz_unknown", via=rq != "-")
+                        elif rq != "-":
                             r = _unary_via_shm_request(w, px, name, kw, on_log)
                         else:
                             r = getattr(px, name)(**kw)
